@@ -137,6 +137,14 @@ func (u *OptUse) reachFrom(ctor *ssa.Function) map[*ssa.Function]bool {
 	if r, ok := u.reach[ctor]; ok {
 		return r
 	}
+	r := u.reachFromFiltered(ctor, nil)
+	u.reach[ctor] = r
+	return r
+}
+
+// reachFromFiltered: as reachFrom; typeOK (if non-nil) limits the types whose
+// whole method set is added to those defined in accepted packages.
+func (u *OptUse) reachFromFiltered(ctor *ssa.Function, typeOK func(pkgPath string) bool) map[*ssa.Function]bool {
 	seen := map[*ssa.Function]bool{}
 	seenT := map[types.Type]bool{}
 	var work []*ssa.Function
@@ -155,6 +163,9 @@ func (u *OptUse) reachFrom(ctor *ssa.Function) map[*ssa.Function]bool {
 			return
 		}
 		if _, isStruct := n.Underlying().(*types.Struct); !isStruct {
+			return
+		}
+		if typeOK != nil && !typeOK(n.Obj().Pkg().Path()) {
 			return
 		}
 		// option structs themselves have no behaviour of interest
@@ -201,7 +212,6 @@ func (u *OptUse) reachFrom(ctor *ssa.Function) map[*ssa.Function]bool {
 			}
 		}
 	}
-	u.reach[ctor] = seen
 	return seen
 }
 
